@@ -200,9 +200,10 @@ inspect_st = st.fixed_dictionaries({
     'loc': st.one_of(st.none(), st.sampled_from(HDR_LOC)),
     'decoys': st.lists(st.sampled_from(HDR_DECOY), max_size=5),
     'datestyle': st.sampled_from(['%m/%d/%Y', '%m/%d/%Y', '%Y-%m-%d', '%d.%m.%Y', '%b %d, %Y', '%d %b %Y', '%B %d, %Y']),
+    'trailing_comma': st.sampled_from([False, False, True]),
     'perm': st.integers(0, 10 ** 6), 'drop': st.sampled_from([None, None, None, 'date', 'desc', 'amt']),
     'rows': st.lists(st.tuples(st.dates(min_value=__import__('datetime').date(2021, 1, 1), max_value=__import__('datetime').date(2026, 12, 31)),
-                               st.sampled_from(['NETFLIX.COM', 'UBER *EATS', 'COFFEE, SHOP', 'AMZN "MKTP"', 'x']), st.integers(-99999, 99999).filter(lambda c: c != 0)).map(list),
+                               st.sampled_from(['NETFLIX.COM', 'UBER *EATS', 'COFFEE, SHOP', 'AMZN "MKTP"', 'x', "JOES 'DINER' MAIN ST", 'TWO WORDS', "O'NEIL'S PUB; BAR"]), st.integers(-99999, 99999).filter(lambda c: c != 0)).map(list),
                      min_size=1, max_size=5),
 })
 
@@ -231,6 +232,10 @@ def check_inspect(case, stats: Stats):
                         'amt': f'{cents / 100:.2f}', 'loc': 'Seattle', 'decoy': 'zz'}[kind])
         w.writerow(row)
     text = buf.getvalue()
+    if case.get('trailing_comma'):
+        # exports that end every DATA row with a comma (the header row has none)
+        first, _, rest = text.partition('\n')
+        text = first + '\n' + ''.join(l + ',\n' for l in rest.split('\n') if l)
     path = obs.write_rules(text, 'statement.csv')
     r = cli.run(['inspect', path])
     out = r.out + r.err
